@@ -165,13 +165,13 @@ func (d *qeDom) cb(r res.QueryRequest) {
 			r.NotFound()
 		case "invalidQuery":
 			if f[1] == "T" {
-				r.InvalidQuery("Custom")
+				r.InvalidQuery("Custom \"quoted\" back\\slash\nnewline") // a message that needs JSON escaping
 			} else {
 				r.InvalidQuery("")
 			}
 		case "error":
 			if f[1] == "R" {
-				r.Error(&res.Error{Code: f[2], Message: "m"})
+				r.Error(&res.Error{Code: f[2], Message: "m \"q\" \\ \t"})
 			} else {
 				r.Error(errors.New("plain"))
 			}
